@@ -608,9 +608,22 @@ where
         &mut self,
         diff: &Diff<T>,
     ) -> Result<(), Self::Error> {
-        self.insert_records(diff.patch.records(), true).await?;
-
-        let computed = self.tree().head()?;
+        // Verify the checkpoint against the new events before
+        // replacing anything so that a failed verification
+        // leaves the event log untouched
+        let records = diff.patch.records();
+        let computed = if records.is_empty() {
+            self.tree().head()?
+        } else {
+            let mut tree = CommitTree::new();
+            let mut hashes = records
+                .iter()
+                .map(|r| *r.commit().as_ref())
+                .collect::<Vec<_>>();
+            tree.append(&mut hashes);
+            tree.commit();
+            tree.head()?
+        };
         let verified = computed == diff.checkpoint;
         if !verified {
             return Err(Error::CheckpointVerification {
@@ -619,6 +632,8 @@ where
             }
             .into());
         }
+
+        self.insert_records(records, true).await?;
 
         Ok(())
     }
